@@ -139,6 +139,12 @@ impl<S: Read + Write> RdpClient<S> {
     pub fn shutdown(&mut self) -> RdpResult<()> {
         self.mcs.shutdown()
     }
+
+    /// True when data of a next PDU are already buffered (by the TLS layer) :
+    /// read can be called without waiting for the socket to be readable
+    pub fn has_pending_data(&self) -> bool {
+        self.mcs.has_pending_data()
+    }
 }
 
 /// Verification hook (only with `--cfg rdp_rs_verif`): assemble a client
